@@ -179,3 +179,59 @@ func lemmaTickMonotone(intervalStart uint64, intervalsPerDay uint32, t1, t2 uint
 //@ loop 0 decreases WTCount - i
 //@ ensures #id: tgID == sle64(tgSerialized, 0)
 //@ ensures #n: len(wtSets) == sle64(tgSerialized, 8)
+
+// ---------------------------------------------------------------------------------------------
+// C06: reading a WAL file of arbitrary bytes (ghost file model in utils/zz_verif_stdlib.go)
+
+//@ import goio io
+//@ import wal @/executor/wal
+
+//@ func @/executor/wal.Read
+//@ props C06
+//@ requires #pos: 0 <= filePos
+//@ ensures #okLen: err == nil ==> (len(result) == len(buffer) && base(result) == base(buffer) && filePos == old(filePos) + len(buffer))
+//@ ensures #progress: filePos >= old(filePos)
+//@ ensures #data: err == nil ==> forall(k, 0, len(buffer), result[k] == fileContent[old(filePos) + k])
+
+//@ func (*WALFileType).readMessageID
+//@ props C06
+//@ requires #pos: 0 <= filePos
+//@ ensures #ok: err == nil ==> (mid == TGDATA || mid == TXNINFO || mid == STATUS)
+//@ ensures #consumed: (err == nil || !(err == goio.EOF || typeis(err, "@/executor/wal.ShortReadError"))) ==> filePos == old(filePos) + 1
+//@ ensures #progress: filePos >= old(filePos)
+
+// tgValid(b, n): the n bytes at address b passed the WAL frame checksum (typestate set only by validateCheckSum).
+//@ ghost func tgValid(b int, n int) bool
+
+//@ func validateCheckSum
+//@ trusted "md5 over length+payload compared with the stored checksum (crypto/md5, bytes.Equal): abstracted by the typestate tgValid"
+//@ pure
+//@ marks #valid: result == nil ==> tgValid(base(tgSerialized), len(tgSerialized))
+
+//@ func sanityCheckValue
+//@ props C06
+//@ ensures #bound: isSane ==> value < 1000*fileSize
+
+//@ func (*WALFileType).readTGData
+//@ props C06 C05
+//@ requires #pos: 0 <= filePos
+//@ ensures #ok: err == nil ==> (len(tgSerialized) >= 8 && tgID == sle64(tgSerialized, 0) && tgValid(base(tgSerialized), len(tgSerialized)))
+//@ ensures #fail: err != nil ==> (tgSerialized == nil && tgID == 0)
+//@ ensures #progress: filePos >= old(filePos)
+//@ ensures #allocBound: err == nil ==> len(tgSerialized) < 1000*fileSize
+
+//@ func @/executor/wal.ReadStatus
+//@ props C06
+//@ requires #pos: 0 <= filePos
+//@ ensures #progress: filePos >= old(filePos)
+
+//@ func (*WALFileType).readTransactionInfo
+//@ props C06 C05
+//@ requires #pos: 0 <= filePos
+//@ ensures #progress: filePos >= old(filePos)
+//@ ensures #ok: err == nil ==> ((destination == CHECKPOINT || destination == WAL) && (txnStatus == PREPARING || txnStatus == COMMITINTENDED || txnStatus == COMMITCOMPLETE))
+
+//@ func fullRead
+//@ props C06
+//@ ensures #nil: err == nil ==> result
+//@ ensures #eof: err == goio.EOF ==> !result
